@@ -211,3 +211,19 @@ NOT_APPLICABLE = {}
 NOTES = ('All checks are static: they parse /repo/metric_learn on every run, never import or execute it. Exit 0 = every '
          'obligation derived; exit 1 + VIOLATION = an obligation refuted; exit 2 = ANALYSIS-ERROR / INCONCLUSIVE (anchor '
          'vanished, construct outside the transfer tables). Known findings: /verif/known_findings.json.')
+
+
+def _amend(pid, old, new, key='text'):
+  s = CHECKS[pid][key]
+  assert s.count(old) == 1, (pid, old[:40], s.count(old))
+  CHECKS[pid][key] = s.replace(old, new)
+
+
+# later additions (DESIGN.md 10.7 - 10.9), kept as amendments of the texts above
+_amend('C01', "and that pair_score is exactly its negation; non-negativity,", "and that pair_score is exactly its negation; pair_distance, interpreted for pair counts up to 200001, writes every index interval of its result with the distances of the same interval (no batch skipped); no values array is cast to another array's dtype; non-negativity,")
+_amend('C02', "and that score_pairs returns pair_distance after a FutureWarning on every path.", "and that score_pairs returns pair_distance after a FutureWarning on every path; the matrix returned by get_mahalanobis_matrix is not overwritten with constants (no flushing / clipping of entries).")
+_amend('C05', "the preprocessor is invoked only by preprocess_tuples/preprocess_points, only under ndim == formed_ndim-1 and preprocessor is not None; tuple slot j is preprocessor(tuples[:, j]) in order along axis 1; ArrayIndexer is X[indices]; every call through the user callable is wrapped into PreprocessorError;", "the preprocessor is invoked only by the validator's own helpers (public, private or nested) and, on the interpretive validator table shared with C06 (500+ scenarios incl. single-feature inputs), on no scenario whose input already has the formed number of dimensions; preprocess_tuples, interpreted on symbolic tokens, puts preprocessor(tuples[:, j]) in slot j along axis 1 and turns each of several exception classes raised by the callable into PreprocessorError; ArrayIndexer is X[indices];")
+_amend('C11', "the two projection loops skip no constraint (no continue / break);", "the two projection loops skip no constraint (no continue / break); gamma_proj is gamma/(gamma+1) with the infinite case mapped to 1; the loop is left on the normalised multiplier change compared with self.tol (structural matcher);")
+_amend('C13', "the vetting predicate has exactly the three documented disjuncts;", "the vetting predicate has exactly the three documented disjuncts (a determinant-sign test in place of the eigenvalue test is refuted);")
+_amend('C18', "(deprecated aliases: replacement taken from the alias only on a path that emits FutureWarning; alias attribute constant 'deprecated')", "(deprecated aliases: replacement taken from the alias only on a path where the alias was supplied and that emits FutureWarning; every alias is mapped onto its parameter on some path; alias attribute constant 'deprecated')")
+_amend('C19', "lattice Inv / Abs / Lin(W) / Dep for translations", "lattice Inv / Abs / AbsT / Lin(W) / Dep / Unk for translations, with a may-annihilate-constants bit on invariant matrices so that Laplacian / incidence forms are 'unknown', never 'dependent'", key='technique')
